@@ -94,6 +94,11 @@ func (s *zstate) bound(a, b zterm) int64 {
 	if a == zZero && b.len {
 		return 0
 	}
+	if a == zZero && b.v != nil {
+		if _, isHeap := b.v.(*heapVal); isHeap {
+			return 0
+		}
+	}
 	return zInf
 }
 
@@ -246,8 +251,9 @@ func zjoin(a, b *zstate) *zstate {
 			if fv, ok := from.bools[g]; ok && !fv {
 				continue
 			}
+			small := len(from.b) <= 150
 			for k, c := range from.b {
-				if k[0] != zZero && k[1] != zZero {
+				if !small && k[0] != zZero && k[1] != zZero {
 					continue
 				}
 				cc := zcons{k[0], k[1], c}
@@ -347,11 +353,15 @@ type ZEnsure struct {
 }
 
 type ZContract struct {
+	// Trusted: a reviewed lemma about heap state; not checked against the body
+	Trusted  bool
 	Requires []ZC
 	Ensures  []ZEnsure
 	NSReq    [][3]int // NS(param a, param b, param c) required
 }
 
+func zh(i int) ZArg { return ZArg{'H', i} } // length of the line designated by *Line argument i
+func zo(i int) ZArg { return ZArg{'O', i} } // length of the line of Cursor/Selection argument i
 func zp(i int) ZArg { return ZArg{'P', i} }
 func zl(i int) ZArg { return ZArg{'L', i} }
 func zr(i int) ZArg { return ZArg{'R', i} }
@@ -370,14 +380,30 @@ type binopKey struct {
 	x, y string
 }
 
-func mkBinopKey(bo *ssa.BinOp) binopKey {
-	vk := func(v ssa.Value) string {
-		if c, ok := v.(*ssa.Const); ok {
-			return "const:" + c.String()
-		}
+// valueKey numbers pure integer expressions structurally: constants, len(v),
+// x ± y; anything else is itself.
+func valueKey(v ssa.Value, d int) string {
+	if d > 4 {
 		return fmt.Sprintf("%p", v)
 	}
-	return binopKey{bo.Op, vk(bo.X), vk(bo.Y)}
+	switch x := v.(type) {
+	case *ssa.Const:
+		return "const:" + x.String()
+	case *ssa.BinOp:
+		if x.Op == token.ADD || x.Op == token.SUB {
+			return "(" + valueKey(x.X, d+1) + x.Op.String() + valueKey(x.Y, d+1) + ")"
+		}
+	case *ssa.Call:
+		if b, ok := x.Call.Value.(*ssa.Builtin); ok && b.Name() == "len" && len(x.Call.Args) == 1 {
+			// len of a string or of an SSA slice value (a value, not a memory read)
+			return "len(" + fmt.Sprintf("%p", x.Call.Args[0]) + ")"
+		}
+	}
+	return fmt.Sprintf("%p", v)
+}
+
+func mkBinopKey(bo *ssa.BinOp) binopKey {
+	return binopKey{bo.Op, valueKey(bo.X, 0), valueKey(bo.Y, 0)}
 }
 
 type ZObl struct {
@@ -403,7 +429,13 @@ type zoneEngine struct {
 	useGetters bool
 	getterEq   map[*ssa.Call]*ssa.Call
 	loadLB     map[*ssa.UnOp]int64
+	loadUB     map[*ssa.UnOp]string // load <= length term of this line class
 	sameBinOps map[binopKey][]*ssa.BinOp
+	// heap length terms (zone_heap.go)
+	useHeap   bool
+	heapTerms map[string]*heapVal
+	lineKills map[ssa.Instruction]bool
+	curIn     ssa.Instruction
 	// integer field invariants: type.field >= k, assumed at loads, checked at every store
 	fieldLB map[string]int64
 	// fieldLBCheck: like fieldLB but obligation only (no assumption at loads): class invariants
@@ -445,6 +477,12 @@ func sameSeqKind(a, b types.Type) bool {
 }
 
 func (z *zoneEngine) lenOf(v ssa.Value) (zterm, int64) {
+	if t, ok := z.heapLenOf(v); ok {
+		return t, 0
+	}
+	if k, ok := z.elemLenLemma(v); ok {
+		return zZero, k
+	}
 	v = z.slcanon(v)
 	// pointer to array: constant length
 	if pt, ok := v.Type().Underlying().(*types.Pointer); ok {
@@ -537,6 +575,9 @@ func (z *zoneEngine) refine(s *zstate, cond ssa.Value, val bool) {
 		return
 	}
 	s.bools[cond] = val
+	if !val {
+		z.activate(s, cond, 'F')
+	}
 	// syntactically identical comparisons (same operator and operands, e.g. the
 	// `pos == 0` of two switch cases) have the same value
 	if bo, ok := cond.(*ssa.BinOp); ok {
@@ -626,6 +667,78 @@ func (z *zoneEngine) refine(s *zstate, cond ssa.Value, val bool) {
 				z.markNonZero(s, x.X)
 			}
 		}
+		// conditional ensures guarded by "result >= 0" ('P') or "len(result) >= 1" ('L')
+		for _, opnd := range []ssa.Value{x.X, x.Y} {
+			if cl, ok := opnd.(*ssa.Call); ok {
+				if b, isB := cl.Call.Value.(*ssa.Builtin); isB && b.Name() == "len" && len(cl.Call.Args) == 1 {
+					w := cl.Call.Args[0]
+					l, ol := z.lenOf(w)
+					if z.provesLeq(s, zZero, 1, l, ol) {
+						z.activate(s, w, 'L')
+					}
+					continue
+				}
+			}
+			if isIntType(opnd.Type()) {
+				t, o := z.lin(s, opnd)
+				if t != zZero && o == 0 && z.provesLeq(s, zZero, 0, t, 0) {
+					z.activate(s, opnd, 'P')
+				}
+			}
+		}
+	}
+}
+
+// contractFor: the contract of a call — by callee name, or, for a call through
+// a func value of a named func type, the contract of that type (every function
+// stored in such a value is checked against it).
+func (z *zoneEngine) contractFor(c *ssa.Call) *ZContract {
+	n := calleeName(c)
+	if ct := z.contracts[n]; ct != nil {
+		return ct
+	}
+	if n == "dynamic" {
+		return z.contracts["type:"+typeStr(c.Call.Value.Type())]
+	}
+	return nil
+}
+
+// saturate applies the facts guarded by comparisons the state already decides.
+func (z *zoneEngine) saturate(s *zstate) {
+	for i := 0; i < 3; i++ {
+		changed := false
+		for g, cons := range s.guarded {
+			if _, known := s.bools[g]; known {
+				continue
+			}
+			bo, ok := g.(*ssa.BinOp)
+			if !ok || !isIntType(bo.X.Type()) {
+				continue
+			}
+			a, oa := z.lin(s, bo.X)
+			b, ob := z.lin(s, bo.Y)
+			holds := false
+			switch bo.Op {
+			case token.LSS:
+				holds = z.provesLeq(s, a, oa+1, b, ob)
+			case token.LEQ:
+				holds = z.provesLeq(s, a, oa, b, ob)
+			case token.GTR:
+				holds = z.provesLeq(s, b, ob+1, a, oa)
+			case token.GEQ:
+				holds = z.provesLeq(s, b, ob, a, oa)
+			}
+			if holds {
+				s.bools[g] = true
+				for _, c := range cons {
+					s.addCons(c)
+				}
+				changed = true
+			}
+		}
+		if !changed {
+			return
+		}
 	}
 }
 
@@ -652,7 +765,7 @@ func (z *zoneEngine) activate(s *zstate, v ssa.Value, guard byte) {
 	if call == nil {
 		return
 	}
-	ct := z.contracts[calleeName(call)]
+	ct := z.contractFor(call)
 	if ct == nil {
 		return
 	}
@@ -680,6 +793,20 @@ func (z *zoneEngine) zarg(s *zstate, call *ssa.Call, a ZArg) (zterm, int64, bool
 			t, o := z.lenOf(args[a.I])
 			return t, o, true
 		}
+	case 'H', 'O':
+		if !z.useHeap || a.I >= len(args) {
+			return zterm{}, 0, false
+		}
+		class := ""
+		if a.Kind == 'H' {
+			class = lineClassOfPtr(args[a.I])
+		} else {
+			class = lineClassOfObj(args[a.I])
+		}
+		if class == "" {
+			return zterm{}, 0, false
+		}
+		return z.lineTerm(class), 0, true
 	case 'R', 'M':
 		var rv ssa.Value
 		if call.Type().(interface{ Underlying() types.Type }) != nil {
@@ -743,6 +870,15 @@ func (z *zoneEngine) describe(s *zstate, t zterm, o int64) string {
 func (z *zoneEngine) transfer(s *zstate, in ssa.Instruction, record bool) {
 	if s.bottom {
 		return
+	}
+	z.curIn = in
+	if z.lineKills[in] {
+		defer func() {
+			// the instruction may change the length of a shared line
+			for _, hv := range z.heapTerms {
+				s.forget(zterm{v: hv})
+			}
+		}()
 	}
 	chkIndex := func(x ssa.Value, idx ssa.Value, what string) {
 		if !record {
@@ -847,6 +983,9 @@ func (z *zoneEngine) transfer(s *zstate, in ssa.Instruction, record bool) {
 			if k, ok := z.loadLB[x]; ok {
 				s.add(zZero, zterm{v: x}, -k)
 			}
+			if cl, ok := z.loadUB[x]; ok {
+				s.add(zterm{v: x}, z.lineTerm(cl), 0)
+			}
 		}
 	case *ssa.Store:
 		if tn, fld, ok := fieldOf(x.Addr); ok {
@@ -911,7 +1050,7 @@ func (z *zoneEngine) transfer(s *zstate, in ssa.Instruction, record bool) {
 // checkEnsures verifies the analysed function's own postconditions at a return.
 func (z *zoneEngine) checkEnsures(s *zstate, ret *ssa.Return) {
 	ct := z.contracts[fnName(z.fn)]
-	if ct == nil {
+	if ct == nil || ct.Trusted {
 		return
 	}
 	term := func(a ZArg) (zterm, int64, bool) {
@@ -948,11 +1087,51 @@ func (z *zoneEngine) checkEnsures(s *zstate, ret *ssa.Return) {
 			if k, ok := constInt(gv); ok && k == 0 {
 				continue
 			}
+		case 'F':
+			if k, ok := constBool(gv); ok && k {
+				continue
+			}
+			if k, ok := s.bools[gv]; ok && k {
+				continue
+			}
+		case 'L':
+			if gv != nil {
+				l, ol := z.lenOf(gv)
+				if z.provesLeq(s, l, ol, zZero, 0) {
+					continue // an empty result: the guarded ensure says nothing
+				}
+			}
+		case 'P':
+			if gv != nil {
+				t, o := z.lin(s, gv)
+				if z.provesLeq(s, t, o, zZero, -1) {
+					continue // a negative result
+				}
+			}
 		case 'E':
 			if !isNilConst(gv) {
 				if _, isPhi := gv.(*ssa.Phi); !isPhi {
 					continue // a definite error value
 				}
+			}
+		}
+		// the guarded ensures are checked under their guard
+		cs := s
+		if gv != nil && (e.Guard == 'P' || e.Guard == 'L' || e.Guard == 'F') {
+			cs = s.clone()
+			switch e.Guard {
+			case 'P':
+				t, o := z.lin(cs, gv)
+				z.leq(cs, zZero, 0, t, o)
+			case 'L':
+				l, ol := z.lenOf(gv)
+				z.leq(cs, zZero, 1, l, ol)
+			case 'F':
+				z.refine(cs, gv, false)
+			}
+			z.saturate(cs)
+			if cs.bottom {
+				continue
 			}
 		}
 		for _, c := range e.Cons {
@@ -963,7 +1142,7 @@ func (z *zoneEngine) checkEnsures(s *zstate, ret *ssa.Return) {
 				continue
 			}
 			cons := zcons{a, b, c.C - oa + ob}
-			ok := s.holds(cons)
+			ok := cs.holds(cons)
 			if !ok && e.Guard == 'T' && gv != nil {
 				ok = guardedHolds(s, gv, cons)
 			}
@@ -1023,6 +1202,20 @@ func (z *zoneEngine) call(s *zstate, c *ssa.Call, record bool) {
 	if c1, ok := z.getterEq[c]; ok {
 		s.eq[c] = c1
 	}
+	if n == "unicode/utf8.RuneCountInString" && len(c.Call.Args) == 1 {
+		// lemma: string(r) of a []rune r has exactly len(r) runes (an invalid
+		// rune becomes U+FFFD, still one rune)
+		if cv, ok := c.Call.Args[0].(*ssa.Convert); ok && isRuneSeq(cv.X.Type()) {
+			rt := zterm{v: c}
+			s.forget(rt)
+			l, ol := z.lenOf(cv.X)
+			s.touch(l)
+			s.add(rt, l, ol)
+			s.add(l, rt, -ol)
+			s.add(zZero, rt, 0)
+			return
+		}
+	}
 	switch n {
 	case "strings.Index", "strings.IndexByte", "strings.IndexRune", "strings.LastIndex":
 		// -1 <= ret <= len(s) - 1 for a non-empty needle
@@ -1048,12 +1241,7 @@ func (z *zoneEngine) call(s *zstate, c *ssa.Call, record bool) {
 		}
 		return
 	}
-	ct := z.contracts[n]
-	if ct == nil && n == "dynamic" {
-		// a call through a func value of a named func type with a contract
-		// (every function stored in such a value is checked against it)
-		ct = z.contracts["type:"+typeStr(c.Call.Value.Type())]
-	}
+	ct := z.contractFor(c)
 	if ct == nil {
 		return
 	}
@@ -1137,6 +1325,10 @@ func zcString(c ZC) string {
 			return fmt.Sprintf("ret%d", a.I)
 		case 'M':
 			return fmt.Sprintf("len(ret%d)", a.I)
+		case 'H':
+			return fmt.Sprintf("Len(*arg%d)", a.I)
+		case 'O':
+			return fmt.Sprintf("Len(arg%d.line)", a.I)
 		}
 		return "?"
 	}
@@ -1386,7 +1578,16 @@ func (z *zoneEngine) analyse(fn *ssa.Function) {
 			}
 		}
 	})
-	z.getterEq, z.loadLB = nil, nil
+	z.heapTerms, z.lineKills = nil, nil
+	if z.useHeap {
+		z.lineKills = map[ssa.Instruction]bool{}
+		eachInstr(fn, func(in ssa.Instruction) {
+			if lineChange(z.p, in) {
+				z.lineKills[in] = true
+			}
+		})
+	}
+	z.getterEq, z.loadLB, z.loadUB = nil, nil, nil
 	if z.useGetters {
 		z.getterEq = z.getterEqualities(fn)
 		z.loadLB = z.stateLoadBounds(fn)
@@ -1479,6 +1680,20 @@ func (z *zoneEngine) zargParam(fn *ssa.Function, a ZArg) (zterm, int64, bool) {
 		if a.I < len(fn.Params) {
 			return zterm{fn.Params[a.I], true}, 0, true
 		}
+	case 'H', 'O':
+		if !z.useHeap || a.I >= len(fn.Params) {
+			return zterm{}, 0, false
+		}
+		class := ""
+		if a.Kind == 'H' {
+			class = lineClassOfPtr(fn.Params[a.I])
+		} else {
+			class = lineClassOfObj(fn.Params[a.I])
+		}
+		if class == "" {
+			return zterm{}, 0, false
+		}
+		return z.lineTerm(class), 0, true
 	}
 	return zterm{}, 0, false
 }
